@@ -571,8 +571,11 @@ def _some_package_emptied(spec: dict[str, Any], facts: Facts, s_src: set[str]) -
         for e in els:
             if e in facts.files:
                 fl.add(e)
-            else:
+            elif len(els) == 1:
+                # one directory: PackageInclude.check_elements looks at everything below it
                 fl |= {f for f in facts.files if f.startswith(e + "/")}
+            # several matches (a glob): check_elements looks at the matched elements themselves only — a module deeper
+            # inside a matched directory does not count (has_modules on the direct elements)
         if not any(f in s_src and Path(f).suffix == ".py" for f in fl):
             return True
     return False
